@@ -22,7 +22,7 @@ use rustc_middle::mir::{
     StatementKind, TerminatorKind, UnOp,
 };
 use rustc_middle::ty::print::{with_crate_prefix, with_no_trimmed_paths, with_no_visible_paths};
-use rustc_middle::ty::{self, Instance, Ty, TyCtxt, TypingEnv};
+use rustc_middle::ty::{self, Instance, Ty, TyCtxt, TypeVisitableExt, TypingEnv};
 use rustc_span::Span;
 use std::fmt::Write as _;
 
@@ -193,6 +193,27 @@ impl<'a, 'tcx> Cx<'a, 'tcx> {
                             let _ = write!(out, ",\"v\":\"{}\"", sv);
                         } else {
                             let _ = write!(out, ",\"v\":\"{}\"", v);
+                        }
+                    }
+                } else if let Const::Val(ConstValue::Scalar(rustc_middle::mir::interpret::Scalar::Ptr(ptr, _)), _) = c {
+                    // `&[u8; N]` literals (format_args! templates, byte strings): dump the bytes (lossy)
+                    if let ty::Ref(_, inner, _) = ty.kind() {
+                        if let ty::Array(elem, len) = inner.kind() {
+                            if *elem == self.tcx.types.u8 {
+                                if let Some(n) = len.try_to_target_usize(self.tcx) {
+                                    let (prov, off) = ptr.prov_and_relative_offset();
+                                    if let rustc_middle::mir::interpret::GlobalAlloc::Memory(a) = self.tcx.global_alloc(prov.alloc_id()) {
+                                        let a = a.inner();
+                                        let lo = off.bytes_usize();
+                                        let hi = lo + n as usize;
+                                        if hi <= a.size().bytes_usize() && n <= 4096 {
+                                            let bytes = a.inspect_with_uninit_and_ptr_outside_interpreter(lo..hi);
+                                            out.push_str(",\"s\":");
+                                            esc(&String::from_utf8_lossy(bytes), out);
+                                        }
+                                    }
+                                }
+                            }
                         }
                     }
                 } else if let Const::Val(ConstValue::Slice { .. }, _) = c {
@@ -524,6 +545,18 @@ impl<'a, 'tcx> Cx<'a, 'tcx> {
                             if !gargs.is_empty() {
                                 out.push_str(",\"ga\":");
                                 esc(&with_no_visible_paths!(with_crate_prefix!(with_no_trimmed_paths!(format!("{:?}", gargs)))), out);
+                            }
+                            // size_of::<T>() with a concrete T: export the evaluated size
+                            if dpath(tcx, *cdid) == "core::mem::size_of" {
+                                if let Some(t0) = gargs.types().next() {
+                                    if !t0.has_non_region_param() {
+                                        if let Ok(l) = tcx.layout_of(self.env.as_query_input(t0)) {
+                                            let _ = write!(out, ",\"sz\":{}", l.size.bytes());
+                                        }
+                                    }
+                                    out.push_str(",\"szty\":");
+                                    esc(&tystr(t0), out);
+                                }
                             }
                             // trait of the callee if it is a trait method
                             if let Some(tr) = tcx.trait_of_assoc(*cdid) {
